@@ -315,9 +315,12 @@ pub fn gen_data(
     let phi = refmath::phi::<f64>(spec, &xv, &alpha_true);
     let mut y = vec![];
     // magnitude of the observations: mostly O(1), sometimes tiny or large
-    let yscale = match rng.below(10) {
-        0 => rng.log_uniform(-6.0, -2.0),
-        1 => rng.log_uniform(2.0, 6.0),
+    let yscale = match rng.below(20) {
+        0 | 1 => rng.log_uniform(-6.0, -2.0),
+        2 | 3 => rng.log_uniform(2.0, 6.0),
+        // far from the magnitude of the basis functions (f32 keeps within its range)
+        4 => rng.log_uniform(-20.0, -6.0),
+        5 => rng.log_uniform(6.0, if width == Width::F32 { 12.0 } else { 20.0 }),
         _ => 1.0,
     };
     for _ in 0..s {
